@@ -36,10 +36,11 @@ DESCR = {
     "m9_generic_default_modulus": "curve packages set a default field_modulus on the generic base classes at import",
     "m10_locked_lazy_append_interruptible": "lock-protected lazy table filled with append, ready flag last (interruptible)",
     "m11_lru_cache_untyped_prime_field_inv": "functools.lru_cache (typed=False) on prime_field_inv: a float equal to a cached int gets the int's result (was benign b1 until the check objected)",
+    "m12_h2g2_memo_converts_key": "hash_to_G2 memo keyed by (bytes(message), bytes(DST), hash): a memoryview / int argument that raises TypeError alone returns a point after an equal bytes call (was benign b4 until the check objected)",
     "b1_lru_cache_prime_field_inv": "benign: functools.lru_cache(typed=True) on prime_field_inv",
     "b2_atomic_lazy_exptable": "benign: exptable built on first use, published with one assignment",
     "b3_locked_lazy_exptable": "benign: lock-protected lazy table with idempotent publication",
-    "b4_h2g2_memo_ok": "benign: hash_to_G2 memo keyed by all arguments",
+    "b4_h2g2_memo_ok": "benign: hash_to_G2 memo keyed by all arguments, plain bytes only",
     "b5_memo_in_default_argument": "benign: hkdf_extract memo in a default argument, fully keyed",
     "b6_instance_cached_inverse": "benign: per-instance cached inverse (cached_property) on optimized FQP",
     "b7_preseeded_internal_memo": "benign: pre-seeded module-level memo of small inverses that grows",
